@@ -2,6 +2,7 @@ package c05
 
 import (
 	"math"
+	"math/big"
 
 	"github.com/golang/geo/r1"
 	"github.com/golang/geo/r3"
@@ -36,6 +37,9 @@ type Spec struct {
 	Full, Empty bool
 	// Scale is the approximate angular radius of the region (sizing only).
 	Scale float64
+	// Hint is a cell the region was constructed against (0 if none): a good
+	// target for the one-sided predicate check.
+	Hint uint64
 }
 
 const (
@@ -340,21 +344,33 @@ func vecs(v []gen.P) []r3.Vector {
 	return out
 }
 
-// edgeDist2 returns an (own, float) estimate of the squared distance from p to
-// the segment ab, all unit vectors; good to ~1e-16 absolute for the use here
-// (classifying points that were constructed on an edge).
-func edgeDist(p, a, b s2.Point) float64 {
-	n := a.Cross(b.Vector)
-	nn := n.Norm()
-	if nn == 0 {
-		return p.Sub(a.Vector).Norm()
+// stableNormal is a normal of the plane through a and b computed as
+// (a-b)x(a+b): relative error a few eps even for nearly parallel a, b (the
+// naive a x b has relative error eps/sin(angle)).
+func stableNormal(a, b s2.Point) r3.Vector {
+	return a.Sub(b.Vector).Cross(a.Add(b.Vector))
+}
+
+// nearEdge reports whether p lies within k*eps (angle) of the edge ab. The
+// distance to the great circle is decided exactly: det(a,b,p)^2 against
+// (k*eps)^2 |a x b|^2 |p|^2 in integers; the position along the edge is
+// decided in floating point with the stable normal (not critical: beyond the
+// ends the distance to the end vertex is used).
+func nearEdge(p, a, b s2.Point, k int64) bool {
+	n := stableNormal(a, b)
+	if n.Norm2() == 0 {
+		return p.Sub(a.Vector).Norm() <= float64(k)*eps
 	}
-	n = n.Mul(1 / nn)
-	// inside the lune of the edge?
-	if n.Cross(a.Vector).Dot(p.Vector) >= 0 && b.Cross(n).Dot(p.Vector) >= 0 {
-		return math.Abs(n.Dot(p.Vector))
+	if n.Cross(a.Vector).Dot(p.Vector) < 0 || b.Cross(n).Dot(p.Vector) < 0 {
+		return math.Min(p.Sub(a.Vector).Norm(), p.Sub(b.Vector).Norm()) <= float64(k)*eps
 	}
-	return math.Min(p.Sub(a.Vector).Norm(), p.Sub(b.Vector).Norm())
+	v, _ := exact.IntVecs(a.Vector, b.Vector, p.Vector)
+	det := exact.Det(v[0], v[1], v[2])
+	lhs := new(big.Int).Mul(det, det)
+	lhs.Lsh(lhs, 104)
+	rhs := new(big.Int).Mul(exact.Norm2(exact.Cross(v[0], v[1])), exact.Norm2(v[2]))
+	rhs.Mul(rhs, big.NewInt(k*k))
+	return lhs.Cmp(rhs) <= 0
 }
 
 // Member classifies p against the region: mIn / mOut only when certain.
@@ -401,19 +417,16 @@ func (s Spec) Member(p s2.Point) int {
 		// is "on the curve up to construction rounding" (ambiguous); the library's
 		// ContainsPoint is false everywhere by documentation.
 		v := s.Rings[0]
-		best := math.Inf(1)
+		pp := gen.FromPt(p)
 		for i := range v {
-			if v[i] == gen.FromPt(p) {
+			if v[i] == pp {
 				return mIn
 			}
-			if i+1 < len(v) {
-				if d := edgeDist(p, v[i].Pt(), v[i+1].Pt()); d < best {
-					best = d
-				}
-			}
 		}
-		if best <= 4*eps {
-			return mNear
+		for i := 0; i+1 < len(v); i++ {
+			if nearEdge(p, v[i].Pt(), v[i+1].Pt(), 4) {
+				return mNear
+			}
 		}
 		return mOut
 	case "point":
@@ -600,7 +613,7 @@ func (s Spec) NearestIn(q s2.Point) []s2.Point {
 					j = 0
 				}
 				b := r[j].Pt()
-				n := a.Cross(b.Vector)
+				n := stableNormal(a, b)
 				if n.Norm2() == 0 {
 					continue
 				}
